@@ -62,6 +62,9 @@ EXPLANATION += ' R8: the table of kinds the tag statements read may come from a 
 TECHNIQUE += '; def-use provenance of the WFX sections'
 EXPLANATION += ' Added: (R20) every per-atom WFX section is written from the attribute under which the reader files it (atomic numbers from atnums, nuclear charges from atcorenums), values followed through locals; the gradient keeps its sign.'
 # --- end metadata batch 9
+# --- metadata added after the round-5 refactoring twins
+EXPLANATION += ' R9 / R15 / R18: single-definition locals in the writer index maps; the WFN orbital header may be printed by a helper; the WFN primitive lists may come from one tuple assignment.'
+# --- end metadata round-5 twins
 
 
 def module_closure(prog, root):
